@@ -85,7 +85,7 @@ Theorem C12_spawn_stdio_child :
   (forall c, In c (s_stdio sp) -> c <> SBad) ->
   (forall i fd, nth_error (s_stdio sp) i = Some (SFd fd) -> get (s_tbl sp) fd <> None) ->
   s_sp_fail sp = None -> s_pipe_fail sp = false -> s_fork_fail sp = false ->
-  s_exec_err sp = None ->
+  eff_exec_err sp = None ->
   let r := fst (uv_spawn sp wo) in
   let sc := Nat.max 3 (length (s_stdio sp)) in
   r_ret r = 0%Z /\ r_active r = true /\
@@ -138,7 +138,7 @@ Theorem C12_failed_spawn_clean :
   (forall c, In c (s_stdio sp) -> c <> SBad) ->
   (forall i fd, nth_error (s_stdio sp) i = Some (SFd fd) -> get (s_tbl sp) fd <> None) ->
   s_sp_fail sp = None -> s_pipe_fail sp = false -> s_fork_fail sp = false ->
-  s_exec_err sp = Some e -> e <> 0%Z ->
+  eff_exec_err sp = Some e -> e <> 0%Z ->
   let r := fst (uv_spawn sp wo) in
   r_ret r = (- e)%Z /\ r_active r = false /\ r_reaped r = Some (fst (wait_retry wo)) /\
   (forall d, (forall i, ~ In (i, d) (r_streams r)) -> get (r_ptbl r) d = get (s_tbl sp) d) /\
@@ -149,7 +149,7 @@ Print Assumptions C12_failed_spawn_clean.
 
 (* the former counterexample (0,1,2 open, six inherited slots, ENOENT), now *)
 Example C12_failed_spawn_clean_example :
-  exists sp, s_exec_err sp = Some 2%Z /\
+  exists sp, eff_exec_err sp = Some 2%Z /\
     r_ret (fst (uv_spawn sp [WPid 32512%Z])) = (-2)%Z /\
     r_active (fst (uv_spawn sp [WPid 32512%Z])) = false /\
     r_reaped (fst (uv_spawn sp [WPid 32512%Z])) = Some (Some (WPid 32512%Z)) /\
@@ -248,8 +248,8 @@ Print Assumptions C12_reaped_once.
 
 Example C12_exit_example :
   exits (snd (run linit
-     [OSpawn 0 (mkSpec [] [] true 100 10 None false false None []) [];
-      OSpawn 1 (mkSpec [] [] true 101 20 None false false None []) [];
+     [OSpawn 0 (mkSpec [] [] true 100 10 None false false None [] (mkC 0 0 0) (mkC 0 0 0) None None) [];
+      OSpawn 1 (mkSpec [] [] true 101 20 None false false None [] (mkC 0 0 0) (mkC 0 0 0) None None) [];
       OScan [WZero; WEintr; WPid 15%Z];
       OScan [WPid 768%Z]])) = [(1, 0%Z, 15%Z); (0, 3%Z, 0%Z)].
 Proof. vm_compute. reflexivity. Qed.
